@@ -814,7 +814,7 @@ class TextXMetaModel(DebugPrinter):
 
         if model is None:
             # Read model from file
-            if not model_str:
+            if model_str is None:
                 with open(file_name, encoding=encoding) as f:
                     model_str = f.read()
             # model not present (from global repo) -> load it
